@@ -36,6 +36,28 @@ CHECKS = {
                 technique="TLA+ XpmScheduler: TLC deadlock freedom + IdleTokenIsFull + liveness; trace validation incl. aborted starts (E1)",
                 text="Every way a job ends (success, failure, aborted start) returns its tokens: checked exhaustively on the model and on real "
                      "executions whose End event requires the model's terminal predicate (tokens full, nothing waiting).", note=SCHED_NOTE),
+    "C05": dict(category="model_checking", engine="E1+E2", design="5 (C05), 3.1, 3.2",
+                technique="TLA+ XpmScheduler (registry, done markers, restart) + XpmJobDir (competing launches): TLC exhaustive + trace validation of E1 executions and of real-process races (E2)",
+                text="Registry de-duplication, 'never launched again when done' and re-submission are checked by TLC on the scheduler model and on "
+                     "real scheduler executions (duplicates at every position, later experiments, removed markers); 'the body never runs twice at "
+                     "once / again after success' is checked by TLC on the job-directory model (2-3 competing launches, signals anywhere) and on "
+                     "scripted races of 2-3 real job processes whose histories must be behaviours of the model.",
+                note=SCHED_NOTE + " E2 races are scripted (holder in body, waiter blocked on the lock, third arrival), not exhaustive at instruction level."),
+    "C10": dict(category="fault_enumeration", engine="E2", design="5 (C10), 3.2, 4.4",
+                technique="TLA+ XpmJobDir: TLC exhaustive over signal x statement; fault enumeration signal x executed line of the real TaskRunner, histories validated by TLC (silent-step trace spec)",
+                text="Every k-th (quick) / every (thorough) executed line of run.py and of the task body is used as the instant of SIGKILL, SIGTERM "
+                     "and SIGINT of a real generated job script (plus failing body, pre-existing .failed/.done, relaunches, competing launches); the "
+                     "observed exit status, markers, lock state and body begin/end records of each history must be explained by a behaviour of "
+                     "XpmJobDir, whose invariants (DoneOnlyIfBodyCompleted, HandledSignalInBody, NoPidAfterOwnEnd, LockHolderAlive) TLC "
+                     "checks exhaustively.",
+                note="Trusted: kernel semantics of fcntl locks / signals; line granularity of sys.settrace for the fault position; the harness plays the launcher side (lock, spawn, pid file, unlock)."),
+    "C11": dict(category="fault_enumeration", engine="E1", design="5 (C11), 3.1, 4.3",
+                technique="TLA+ XpmScheduler with Die/Restart: TLC exhaustive (restart family) + fault sweep (scheduler death after every k-th event) over real scheduler executions validated by TLC",
+                text="The scheduler model includes SIGKILL of the scheduler at any point and a restart on the same workspace (adoption through "
+                     "the pid file, done markers, run lock held by surviving job processes); TLC checks body-exactly-once invariants exhaustively "
+                     "and the real scheduler is killed after every k-th recorded event of base schedules (with long-running and short jobs), "
+                     "restarted, and the whole two-run history validated against the specification.",
+                note=SCHED_NOTE + " Scheduler death is injected at loop-callback boundaries of the in-process engine; real-process kills are covered for the job side by C10."),
 }
 
 REASON_TODO = "check not built yet (build in progress, see DESIGN.md section 12)"
